@@ -21,7 +21,9 @@ namespace TAO_PEGTL_NAMESPACE::internal
       template< typename ParseInput >
       [[nodiscard]] static bool match( ParseInput& in ) noexcept( noexcept( in.size( 0 ) ) )
       {
-         in.bump( in.size( Size( -1 ) ) );
+         while( const Size s = in.size( 1 ) ) {
+            in.bump( s );
+         }
          return true;
       }
    };
